@@ -283,6 +283,8 @@ def one_conflict(case):
             res = run_under(sim, fn, G, trans_time_fxn=tabs.sis_trans_time, rec_time_fxn=tabs.sis_rec_time, **kw)
         if res.status == "exc" and isinstance(res.exc, EoN.EoNError):
             continue
+        if sweeps.is_harness_limit(res):
+            continue        # not under the harness's control: never a verdict
         what = "returned normally" if res.status == "done" else "%s: %s" % (type(res.exc).__name__, res.exc) \
             if res.status == "exc" else res.status
         out.append(V("conflict", "%s/rho-and-initial_infecteds-accepted" % name,
